@@ -121,7 +121,7 @@ c.setup(_setup)
 c.ensures('as-freshly-constructed', 'same_state(self, _fresh)')
 
 # ---- Machine.reset: registers, constants, routines, call stack, evaluation stack, pending output, both flags
-c = contract('bardolph/vm/machine.py', 'Machine.reset', serves=['C17'])
+c = contract('bardolph/vm/machine.py', 'Machine.reset', serves=['C17', 'C19', 'C01'])
 def _setup(b, case):
     m = lib.machine(b, 'LOGICAL', lib.light_set_with(b, {}))
     fresh = lib.machine(b, 'LOGICAL', lib.light_set_with(b, {}))
